@@ -155,10 +155,57 @@ func runA(c *verdict.Ctx) {
 	}
 	close(jobs)
 	wg.Wait()
+	// ---- the very first blocks of the chain: a fresh home (nothing committed, InitChain still to come)
+	// with crash points over InitChain and the first heights
+	fresh := filepath.Join(tmp, "template-genesis")
+	if err := r.InitHome(fresh, 0); err != nil {
+		c.HarnessError("genesis template: %v", err)
+		return
+	}
+	var gplans []string
+	for i := 0; i < 12; i++ {
+		gplans = append(gplans, fmt.Sprintf("fail:%d", i))
+	}
+	for i := 1; i <= 14; i++ {
+		gplans = append(gplans, fmt.Sprintf("app:%d", i))
+	}
+	for i := 1; i <= 6; i++ {
+		gplans = append(gplans, fmt.Sprintf("db:state:%d:before", i), fmt.Sprintf("db:state:%d:after", i), fmt.Sprintf("db:blockstore:%d:before", i), fmt.Sprintf("db:blockstore:%d:after", i))
+	}
+	gplans = append(gplans, "pv:1:exit", "pv:2:exit", "point:autofile.synced:1", "point:autofile.synced:3")
+	gorder := c.Rand("gplans", 0).Perm(len(gplans))
+	gn := c.N(len(gplans), len(gplans))
+	if gn > len(gplans) {
+		gn = len(gplans)
+	}
+	c.Set("genesis_crash_points_enumerated", len(gplans))
+	var gwg sync.WaitGroup
+	gjobs := make(chan int, 64)
+	for w := 0; w < runtime.NumCPU(); w++ {
+		gwg.Add(1)
+		go func() {
+			defer gwg.Done()
+			for k := range gjobs {
+				runPlanAt(c, r, fresh, k, gplans[gorder[k]], 0, "genesis-plan")
+				c.Count("genesis_plans_run", 1)
+			}
+		}()
+	}
+	for k := 0; k < gn; k++ {
+		gjobs <- k
+	}
+	close(gjobs)
+	gwg.Wait()
 }
 
 func runPlanA(c *verdict.Ctx, r *crash.Runner, template string, k int, first string) {
-	pr := c.Rand("plan", k)
+	runPlanAt(c, r, template, k, first, h0, "plan")
+}
+
+// runPlanAt runs one crash plan on a template home that stands at height base.
+func runPlanAt(c *verdict.Ctx, r *crash.Runner, template string, k int, first string, base int64, stream string) {
+	h0 := base
+	pr := c.Rand(stream, k)
 	cuts := []string{"", "", "synced", "rand", "garbage"}
 	steps := []crash.Step{{Plan: first, Target: h0 + 3, WALCut: cuts[pr.Intn(len(cuts))]}}
 	if pr.Intn(2) == 0 {
@@ -168,14 +215,14 @@ func runPlanA(c *verdict.Ctx, r *crash.Runner, template string, k int, first str
 		}
 	}
 	steps = append(steps, crash.Step{Target: h0 + 5})
-	res, err := r.Run(template, fmt.Sprintf("p%d", k), steps, func(n int64) int64 { return pr.Int63n(n) })
+	res, err := r.Run(template, fmt.Sprintf("%s%d", stream[:1], k), steps, func(n int64) int64 { return pr.Int63n(n) })
 	if err != nil {
 		c.HarnessError("plan %d: %v", k, err)
 		return
 	}
 	defer os.RemoveAll(res.Home)
 	c.Eval()
-	w := map[string]interface{}{"stream": "plan", "case": k, "steps": steps, "incarnations": res.Incs, "handshake": res.Handshake}
+	w := map[string]interface{}{"stream": stream, "case": k, "steps": steps, "incarnations": res.Incs, "handshake": res.Handshake}
 	crashed := 0
 	for i, inc := range res.Incs {
 		kind := strings.SplitN(inc.Step.Plan, ":", 2)[0]
